@@ -216,6 +216,11 @@ func (r *recResource) GetTemplate(ctx context.Context, sym string) (string, erro
 	if !ok {
 		t = "N:" + sym
 	}
+	if r.prog.LangSens {
+		if l := ctxLang(ctx); l != "" {
+			t = "[" + l + "] " + t
+		}
+	}
 	r.log(extEntry{Kind: "tpl", Sym: sym, Ok: true, Ctxlang: ctxLang(ctx)})
 	return t, nil
 }
@@ -249,6 +254,11 @@ func (r *recResource) FuncFor(ctx context.Context, sym string) (resource.EntryFu
 		}
 		d := alts[i%len(alts)]
 		content := d.content()
+		if r.prog.LangSens && !d.Err && len(d.Set) == 0 && content != "" {
+			if l := ctxLang(ctx); l != "" {
+				content += "~" + l // language-dependent content, as a translated symbol would be
+			}
+		}
 		t := tok(content)
 		e := extEntry{Kind: "func", Sym: sym, Ok: !d.Err, Len: t.Len, Id: t.Id, Set: d.Set, Reset: d.Reset, Lang: langClass(content), Ctxlang: ctxLang(ctx)}
 		if d.Err {
@@ -374,6 +384,7 @@ type reqEvent struct {
 	Saved    viseSnap   `json:"saved"` // persisted mode: the stored record re-read into fresh objects
 	HaveSave bool       `json:"havesave"`
 	Outsize  int        `json:"outsize"`
+	Outerr   errpRec    `json:"outerr"` // error prefix found on the first line of the output
 	Picks    []int      `json:"picks"` // alternative chosen by each external call of this request, in call order
 }
 
@@ -533,6 +544,14 @@ func (h *engineHost) request(input string) *reqEvent {
 			ev.Ferr = err != nil
 			ev.Out = enc(w.String())
 			ev.Outlen = w.Len()
+			first := w.String()
+			if i := strings.Index(first, "\n"); i >= 0 {
+				first = first[:i]
+			}
+			ev.Outerr = classifyErrp(first)
+			if ev.Outerr.Cls != "invalid" {
+				ev.Outerr = errpRec{}
+			}
 		}()
 	}
 	ev.Fext = rec.ext
